@@ -31,6 +31,11 @@ W: generator programs (conservative features of C03) whose shadow assertions are
    4/8/16/31/32/63/64 characters (one with, one without a block); alone and among shadowed functions, first / last in
    the file, in the main file and in an imported module.  Oracle: every un-shadowed one is named in a "missing a
    shadow test" report; functions WITH a block, extern declarations and `main` are not.
+   Control-flow grid (both tiers, full grid; truth values from the reference model): loop kind {while, for-range,
+   for-in-array, while inside for, for inside while} x exit {runs to end, break, continue, return} x iteration {first,
+   middle, last} x what follows {statements after the loop, loop last in its block, loop + statements inside an if arm /
+   else arm / match arm} x {all assertions true, first assertion false, last assertion false}, for functions called from
+   the shadow block and for loops written directly inside the shadow block.
 """
 import copy
 import os
@@ -41,7 +46,7 @@ from .. import build, engines, sweep
 from ..core import VERIF
 from ..gen import ast as A
 from ..gen import gen
-from ..gen.ref import Interp, Fault, Budget, Env
+from ..gen.ref import Interp, Fault, Budget, Env, _Break, _Continue
 from ..run import pmap, Scratch
 from .c03 import SWEEP_FEATURES as C03_FEATURES
 
@@ -76,7 +81,31 @@ class ContInterp(Interp):
             self.tick()
             self.asserts.append(bool(self.ev(x[1], env)))
             return
+        if x[0] == "forin":
+            # for <var> in <array>: the elements in index order
+            self.tick()
+            for v in list(self.ev(x[2], env)):
+                env.push()
+                try:
+                    env.declare(x[1], v, False)
+                    self.block(x[3], env, new_scope=False)
+                except _Break:
+                    break
+                except _Continue:
+                    pass
+                finally:
+                    env.pop()
+                self.tick()
+            return
         Interp.st(self, x, env)
+
+
+class ForInPrinter(A.Printer):
+    def s(self, x, ind):
+        if x[0] == "forin":
+            p = "    " * ind
+            return ["%sfor %s in %s {" % (p, x[1], self.e(x[2]))] + self.block(x[3], ind + 1) + ["%s}" % p]
+        return A.Printer.s(self, x, ind)
 
 
 def truth(prog):
@@ -561,6 +590,123 @@ def name_program(funcs, where, main_pos="last", with_extern=False):
 
 
 # =====================================================================================================
+# control-flow grid
+# =====================================================================================================
+CF_LOOPS = ["while", "for-range", "for-in-array", "while-in-for", "for-in-while"]
+CF_EXITS = ["end", "break", "continue", "return"]
+CF_ITERS = ["first", "middle", "last"]
+CF_FOLLOWS = ["after", "loop-last-in-block", "in-if-arm", "in-else-arm", "in-match-arm"]
+CF_ITER_VALUES = {"while": [1, 3, 4], "for-range": [0, 2, 3], "for-in-array": [5, 7, 8], "while-in-for": [1, 3, 4], "for-in-while": [0, 2, 3]}
+
+
+def _add(var, n):
+    return ("set", var, ("bin", "+", ("var", var), ("int", n)))
+
+
+def cf_statements(loop, exit_kind, follows, in_function, uid):
+    """statements that compute `acc` from `k` (both already declared): the loop of the cell, what follows it, wrapped as
+    the cell says.  `return` is only used inside functions."""
+    ex = {"end": [], "break": [("break",)], "continue": [("continue",)],
+          "return": [("return", ("bin", "+", ("var", "acc"), ("int", 1000)))]}[exit_kind]
+
+    def body(ivar):
+        b = [_add("acc", 1)]
+        if ex:
+            b.append(("if", ("bin", "==", ("var", ivar), ("var", "k")), list(ex), None))
+        b.append(_add("acc", 10))
+        return b
+
+    def while_loop(cname):
+        # the counter is advanced first so that `continue` cannot skip it
+        return [("let", cname, "int", True, ("int", 0)),
+                ("while", ("bin", "<", ("var", cname), ("int", 4)), [_add(cname, 1)] + body(cname))]
+    if loop == "while":
+        lp = while_loop("c" + uid)
+    elif loop == "for-range":
+        lp = [("for", "i" + uid, ("int", 0), ("int", 4), body("i" + uid))]
+    elif loop == "for-in-array":
+        lp = [("let", "arr" + uid, ("array", "int"), False, ("arr", "int", [("int", v) for v in (5, 6, 7, 8)])),
+              ("forin", "x" + uid, ("var", "arr" + uid), body("x" + uid))]
+    elif loop == "while-in-for":
+        lp = [("for", "o" + uid, ("int", 0), ("int", 2), while_loop("c" + uid) + [_add("acc", 7)])]
+    elif loop == "for-in-while":
+        lp = [("let", "w" + uid, "int", True, ("int", 0)),
+              ("while", ("bin", "<", ("var", "w" + uid), ("int", 2)),
+               [_add("w" + uid, 1), ("for", "i" + uid, ("int", 0), ("int", 4), body("i" + uid)), _add("acc", 7)])]
+    else:
+        raise ValueError(loop)
+    after = [_add("acc", 100)]
+    if follows == "after":
+        return lp + after
+    if follows == "loop-last-in-block":
+        return [("if", ("bin", ">", ("var", "k"), ("int", -50)), lp, None)] + after
+    if follows == "in-if-arm":
+        return [("if", ("bin", ">", ("var", "k"), ("int", -50)), lp + after, [_add("acc", -1)])]
+    if follows == "in-else-arm":
+        return [("if", ("bin", "<", ("var", "k"), ("int", -50)), [_add("acc", -1)], lp + after)]
+    if follows == "in-match-arm":
+        return [("let", "u" + uid, ("union", "CU"), False, ("unionlit", "CU", "V0", [("a0", ("int", 1))])),
+                ("match", ("var", "u" + uid), [("V0", "m" + uid, lp + after), ("V1", "n" + uid, [_add("acc", -1)])])]
+    raise ValueError(follows)
+
+
+def cf_cells():
+    for loop in CF_LOOPS:
+        for follows in CF_FOLLOWS:
+            for exit_kind in CF_EXITS:
+                for it in (["-"] if exit_kind == "end" else CF_ITERS):
+                    yield loop, follows, exit_kind, it
+
+
+def cf_program(cells, variant, falsify=None):
+    """one program holding the given cells (each its own function + shadow block).  variant 'function': the loop is in
+    the function, the block calls it with the exit iteration and with a value that never matches; 'in-shadow-block':
+    the loop is written in the block.  falsify: None | 'first' | 'last' (applied to every cell's block; the reference
+    model supplies the true values first).  -> (Program, {function: cell})"""
+    prog = A.Program()
+    prog.main.unions.append(("CU", [("V0", [("a0", "int")]), ("V1", [("a1", "int")])]))
+    names = {}
+    for n, cell in enumerate(cells):
+        loop, follows, exit_kind, it = cell
+        uid = "_%d" % n
+        kval = 99 if exit_kind == "end" else CF_ITER_VALUES[loop][CF_ITERS.index(it)]
+        if variant == "function":
+            fname = "cf%d" % n
+            body = [("let", "acc", "int", True, ("int", 0))] + cf_statements(loop, exit_kind, follows, True, uid) + [("return", ("var", "acc"))]
+            f = A.Func(fname, [("k", "int")], "int", body)
+            f.shadow = [("assert", ("bin", "==", ("call", fname, [("int", 99)]), ("int", 0))),
+                        ("assert", ("bin", "==", ("call", fname, [("int", kval)]), ("int", 0)))]
+        else:
+            fname = "host%d" % n
+            f = A.Func(fname, [("v", "int")], "int", [("return", ("bin", "+", ("var", "v"), ("int", 1)))])
+            f.shadow = ([("assert", ("bin", "==", ("call", fname, [("int", 1)]), ("int", 0))),
+                         ("let", "k", "int", False, ("int", kval)), ("let", "acc", "int", True, ("int", 0))]
+                        + cf_statements(loop, exit_kind, follows, False, uid)
+                        + [("assert", ("bin", "==", ("var", "acc"), ("int", 0)))])
+        prog.main.funcs.append(f)
+        names[fname] = cell
+    mainf = A.Func("main", [], "int", [("print", ("call", fn, [("int", 2)]), True) for fn in names] + [("return", ("int", 0))],
+                   shadow=[("assert", ("bool", True))])
+    prog.main.funcs.append(mainf)
+    # fill in the true values from the reference model, then falsify
+    for f in prog.main.funcs:
+        if f.name == "main":
+            continue
+        idx = [i for i, st_ in enumerate(f.shadow) if st_[0] == "assert"]
+        for i in idx:
+            lhs = f.shadow[i][1][2]
+            it_ = ContInterp(prog, max_steps=200000)
+            probe = A.Func("_probe", [], "int", f.shadow[:i] + [("return", lhs)])
+            val = it_.call(probe, [])
+            f.shadow[i] = ("assert", ("bin", "==", lhs, ("int", val)))
+        if falsify:
+            i = idx[0] if falsify == "first" else idx[-1]
+            c = f.shadow[i][1]
+            f.shadow[i] = ("assert", ("bin", "==", c[2], ("int", c[3][1] + 1)))
+    return prog, names
+
+
+# =====================================================================================================
 # observation and oracle
 # =====================================================================================================
 class Case:
@@ -691,7 +837,7 @@ def judge(case, r, exists):
 
 def run(ctx):
     plain = build.get("plain")
-    n = ctx.n(200, 3000)
+    n = ctx.n(300, 3000)
     n_multi = ctx.n(24, 240)
     with Scratch("c06") as sc:
         # ---------------- workload --------------------------------------------------------------------
@@ -897,6 +1043,53 @@ def run(ctx):
                                   {"main.nano": c.files["main.nano"], "nanoc.stdout": r.out, "nanoc.stderr": r.err})
             builtin_table[name] = row
 
+        # ---------------- control-flow grid ---------------------------------------------------------------------
+        cf_stats = {"cells": 0, "programs_all_true": 0, "programs_one_false": 0, "outcomes": {}, "model_disagrees_with_intent": 0}
+        cells = list(cf_cells())
+        cf_jobs = []
+        pr = ForInPrinter()
+        for variant in ("function", "in-shadow-block"):
+            vcells = [c for c in cells if not (variant == "in-shadow-block" and c[2] == "return")]
+            cf_stats["cells"] += len(vcells)
+            groups = {}
+            for c in vcells:
+                groups.setdefault((c[0], c[1]), []).append(c)
+            todo = [("all-true", g, None) for g in groups.values()]
+            for c in vcells:
+                todo.append(("false-first", [c], "first"))
+                todo.append(("false-last", [c], "last"))
+            for truth_kind, g, fals in todo:
+                prog_, names_ = cf_program(g, variant, fals)
+                T_ = truth(prog_)
+                ctx.require(T_ is not None, "control-flow cell left the reference model's zone: %s" % (g[0],))
+                nfalse_blocks = sum(1 for a in T_.values() if not all(a))
+                if (fals is None) != (nfalse_blocks == 0):
+                    cf_stats["model_disagrees_with_intent"] += 1
+                lab = "cf-%s-%s-%03d" % (variant[:2], truth_kind, len(cf_jobs))
+                cc = Case(-1, lab, prog_.files(pr), T_, [], [], {"classes": [("control-flow", variant, truth_kind, "int")], "nfalse_intended": 0, "removed": []},
+                          frozenset(["control-flow"]))
+                cc.kind = "control-flow"
+                cc.cf = (variant, truth_kind, g, names_)
+                cf_jobs.append(cc)
+        ctx.require(cf_stats["model_disagrees_with_intent"] == 0, "control-flow grid: the reference model does not see the intended truth values")
+        for c, r, exists in pmap(do, cf_jobs):
+            variant, truth_kind, g, names_ = c.cf
+            cf_stats["programs_all_true" if truth_kind == "all-true" else "programs_one_false"] += 1
+            if r.timeout:
+                cf_stats["outcomes"]["watchdog"] = cf_stats["outcomes"].get("watchdog", 0) + 1
+                continue
+            o, viol = judge(c, r, exists)
+            cf_stats["outcomes"][truth_kind + ":" + o] = cf_stats["outcomes"].get(truth_kind + ":" + o, 0) + 1
+            if o.startswith("skip:"):
+                viol = viol + [("refused-for-another-reason", o)]
+            for key, msg in viol:
+                # which cells: the blocks nanoc named (all-true) / the cell of the program (one false)
+                named = [names_[x] for x, _ in FAILED_RE.findall(r.text()) if x in names_] or list(g)
+                for cell in named[:6]:
+                    ctx.violation("control-flow|%s|%s|%s|%s|%s|%s|%s" % (variant, cell[0], cell[2], cell[3], cell[1], truth_kind, key),
+                                  "%s (%s; loop %s, exit %s at the %s iteration, %s): %s" % (c.label, variant, cell[0], cell[2], cell[3], cell[1], msg),
+                                  {"main.nano": c.files["main.nano"], "nanoc.stdout": r.out, "nanoc.stderr": r.err, "expected.txt": "T(p) = %r\n" % (c.T,)})
+
         # ---------------- names of un-shadowed functions -------------------------------------------------------
         from ..run import run as sh_run
 
@@ -1047,6 +1240,8 @@ def run(ctx):
         n_false = sum(v for k, v in kinds.items() if k != "0")
         if not ctx.violations:
             ctx.require(sum(h["cases"] for h in stale.values()) >= len(STALE_VARIANTS) * 3, "too few stale-output scenarios ran: %s" % stale)
+            ctx.require(cf_stats["outcomes"].get("all-true:built", 0) >= 40 and cf_stats["outcomes"].get("false-first:refused+named", 0) >= 300
+                        and cf_stats["outcomes"].get("false-last:refused+named", 0) >= 300, "the control-flow grid did not run as planned: %s" % cf_stats)
             ctx.require(names_stats["names"] >= 60 and names_stats["unshadowed_functions_checked"] >= 400 and rejected2 <= 6,
                         "the name family did not run as planned: %s" % names_stats)
             for need in ("main_x", "mainx", "Main", "_main", "ma", "mai", "main_menu", "long255", "list_x", "List_abc"):
@@ -1059,7 +1254,9 @@ def run(ctx):
                         "the run did not see enough of both sides of the gate: %s" % hist)
             ctx.require(missing_checked >= n // 20, "too few functions without a shadow block were observed")
         return ctx.finish({
-            "evaluations": len(results) + sum(h["cases"] for h in stale.values()) + 4 * builtins_judged + names_stats["programs"],
+            "evaluations": len(results) + sum(h["cases"] for h in stale.values()) + 4 * builtins_judged + names_stats["programs"] + cf_stats["programs_all_true"] + cf_stats["programs_one_false"],
+            "control_flow_grid": dict(cf_stats, loops=CF_LOOPS, exits=CF_EXITS, iterations=CF_ITERS, follows=CF_FOLLOWS,
+                                      variants=["function", "in-shadow-block"], truth=["all-true", "false-first", "false-last"], exhaustive=True),
             "missing_shadow_name_family": dict(names_stats, pair_lengths=PAIR_LENGTHS, exhaustive=True),
             "builtin_coverage": {"builtins_listed": len(BUILTINS), "builtins_exercised": builtins_judged,
                                  "variants": ["body-false", "shadow-false", "all-true", "no-shadow"], "exhaustive": True, "table": builtin_table},
